@@ -272,6 +272,44 @@ def r14_5(chk, facts):
                     fn['n'], nm, c.get('l'), want, sorted(tests)), {'tests': sorted(tests)}, fn['q'])
     chk.require(n >= 6, 'R14.5: only %d index uses found' % n)
 
+def r14_6(chk, facts):
+    """Object member names reach a JSON Pointer string only through the escape writers verified by R14.1."""
+    chk.rule('R14.6', 'pointer construction: wherever flatten / the JSON Patch diff extend a pointer string with a member name, the name passes '
+                      'through escape() (no raw append of key())', floor=3)
+    n = 0; seen = set()
+    for fn in facts.functions:
+        if fn.get('dep') or fn.get('body') is None or not fn['file'].endswith(('jsonpointer.hpp', 'jsonpatch.hpp')): continue
+        if fn['n'] not in ('flatten_', 'from_diff'): continue
+        if (fn['file'], fn['l']) in seen: continue
+        seen.add((fn['file'], fn['l']))
+        pm = None
+        k = 0
+        for c in A.calls_in(fn['body'], no_lambda=True):
+            nm = A.callee_name(c)
+            is_str_op = (c.get('k') == 'CXXMemberCallExpr' and nm in ('append', 'push_back', 'insert', 'assign', 'replace')) or \
+                        (c.get('k') == 'CXXOperatorCallExpr' and c.get('oop') in ('+=', '+', '<<'))
+            is_esc = nm in ('escape', 'escape_string')
+            if not (is_str_op or is_esc): continue
+            # a string operation on a std::basic_string / stream whose operand mentions key()
+            args = c.get('args') or []
+            ops = args[1:] if c.get('k') == 'CXXOperatorCallExpr' else args
+            keyuse = [y for a in ops for y in A.calls_in(a) if A.callee_name(y) == 'key' and y.get('k') == 'CXXMemberCallExpr']
+            if not keyuse: continue
+            if is_str_op:
+                ot = fn['_types'][(A.strip(c.get('obj') or (args[0] if args else None), casts=True) or {}).get('t', 1) - 1] if (c.get('obj') or args) else ''
+                if 'basic_string' not in ot and 'stream' not in ot: continue
+                # operands already wrapped in an escape call are fine
+                wrapped = all(any(y is z for e2 in A.calls_in(a2) if A.callee_name(e2) in ('escape', 'escape_string') for z in A.walk(e2)) for a2 in ops for y in A.calls_in(a2) if A.callee_name(y) == 'key')
+                k += 1; n += 1
+                site = U.site(fn, 'member name appended#%d' % k)
+                if wrapped: chk.ok('R14.6', site, {'line': c.get('l'), 'via': 'escape'})
+                else: chk.fail('R14.6', site, fn['file'], c.get('l'), '%s: a member name is added to the pointer string with %s() without escape(): names containing "/" or "~" give a pointer that addresses something else' % (
+                    fn['n'], nm if c.get('k') == 'CXXMemberCallExpr' else 'operator' + c.get('oop')), None, fn['q'])
+            else:
+                k += 1; n += 1
+                chk.ok('R14.6', U.site(fn, 'member name appended#%d' % k), {'line': c.get('l'), 'via': nm})
+    chk.require(n >= 3, 'R14.6: only %d member-name insertions found in flatten_/from_diff' % n)
+
 def run(chk, tier, only_rule=None):
     chk.explanation = EXPLANATION
     chk.not_decided = NOT_DECIDED
@@ -282,3 +320,4 @@ def run(chk, tier, only_rule=None):
     r14_3(chk, facts)
     r14_4(chk, facts)
     r14_5(chk, facts)
+    r14_6(chk, facts)
